@@ -18,7 +18,7 @@ ASSUMPTIONS = [
     "with-metadata listings are parsed back for hash names that Meta has a field for (md5, md5-dos2unix, etag, checksum); other names cannot be represented in that form",
 ]
 MONITORS = "projection of every entry compared before/after each persistent form"
-REQUIRED_COUNTERS = ["sqlite_rollbacks", "large_indexes", "same_key_histories", "sqlite_lazy_roundtrips", "json_roundtrips", "db_roundtrips", "sqlite_roundtrips", "dict_roundtrips", "tree_list_roundtrips", "sqlite_root_key_cases", "falsy_field_entries"]
+REQUIRED_COUNTERS = ["writes_through_a_view", "sqlite_rollbacks", "large_indexes", "same_key_histories", "sqlite_lazy_roundtrips", "json_roundtrips", "db_roundtrips", "sqlite_roundtrips", "dict_roundtrips", "tree_list_roundtrips", "sqlite_root_key_cases", "falsy_field_entries"]
 
 
 def mproj(m):
@@ -206,6 +206,18 @@ def run_shard(ctx):
                         idx[k] = e
                         before[k] = proj(e)
                         res.count("same_key_histories")
+                view_written = set()  # (the parent's identity cache does not see these until it is reopened: only the persisted form is judged for them)
+                if rng.random() < 0.25:
+                    # some entries are written through a sub-index view (as the collector of storage indexes does) and committed through the parent
+                    for k, e in order[:4]:
+                        if len(k) >= 2 and k in before:
+                            idx.commit()  # (the parent has nothing pending of its own when the view writes)
+                            sub = idx.view(k[:1])
+                            e3 = DataIndexEntry(key=k[1:], meta=Meta(size=31337), hash_info=HashInfo("md5", "a" * 32), loaded=True)
+                            sub[k[1:]] = e3
+                            before[k] = proj(e3)
+                            view_written.add(k)
+                            res.count("writes_through_a_view")
                 idx.commit()
                 rolled = False
                 if rng.random() < 0.3 and before:
@@ -217,8 +229,8 @@ def run_shard(ctx):
                     rolled = True
                     res.count("sqlite_rollbacks")
                 if rolled or rng.random() < 0.5:
-                    same = {k: proj(e) for k, e in idx.iteritems()}
-                    if same != before:
+                    same = {k: proj(e) for k, e in idx.iteritems() if k not in view_written}
+                    if same != {k: v for k, v in before.items() if k not in view_written}:
                         res.violation("sqlite/read-before-close-differs" + ("/after-rollback" if rolled else ""), "index differs from what was set and committed, before close", case=case,
                                       detail={"n": len(before)})
                 idx.close()
